@@ -352,7 +352,7 @@ func macroD(exp Exporter) {
 	if ctx.parScope {
 		closeSpanningBlocks(exp)
 		processParagraph(exp)
-		if scopeVerse(exp) {
+		if scopeVerse(exp) && ctx.verseScope {
 			exp.EndStanza()
 		} else {
 			exp.EndParagraph(ParBreakNormal)
@@ -363,6 +363,7 @@ func macroD(exp Exporter) {
 	reopenSpanningBlocks(exp)
 	exp.BeginDialogue()
 	ctx.WantsSpace = false
+	ctx.verseScope = false
 }
 
 func macroEd(exp Exporter) {
@@ -526,9 +527,14 @@ func macroElProcess(exp Exporter) {
 	switch scope.tag {
 	case "verse":
 		if ctx.parScope {
+			verseLine := ctx.verseScope
 			processParagraph(exp)
 			closeUnclosedScopes(exp, scopeInline)
-			exp.EndStanza()
+			if verseLine {
+				exp.EndStanza()
+			} else {
+				exp.EndParagraph(ParBreakNormal)
+			}
 		}
 		ctx.verseScope = false
 		exp.EndVerse()
@@ -1010,7 +1016,7 @@ func macroP(exp Exporter) {
 	if ctx.parScope {
 		closeSpanningBlocks(exp)
 		processParagraph(exp)
-		if scopeVerse(exp) {
+		if scopeVerse(exp) && ctx.verseScope {
 			exp.EndStanza()
 		} else {
 			exp.EndParagraph(ParBreakNormal)
